@@ -8,7 +8,7 @@
      (cos θ < 0, sin θ > 0: axis from the largest column of the symmetric part, all eight paths); the logarithm is
      θ·axis with a unit axis;
   Explored (smv/props/c03.py, 60-digit reference exponential): the identity band (exact half turns: Props/Half), the
-  SE(3) logarithm (G⁻¹), the 2-D logarithm, thresholds, rounding.  The 2-D exponential is in Props/Exp2.
+  SE(3) logarithm on the obtuse branch (general branch: Props/SE3Log), the 2-D logarithm, thresholds, rounding.  The 2-D exponential is in Props/Exp2.
 -/
 import SmVerif.Bridge.Exp
 import SmVerif.Spec.ExpLog
